@@ -1620,3 +1620,112 @@ Proof.
     + rewrite (Fr eq_refl). now apply IH.
     + rewrite (Fr eq_refl). now apply IH.
 Qed.
+
+Lemma rs_data_step s0 u i olds data : forall s ext Frest,
+  u ∉ (data_fresh data ++ Frest)%list -> NoDup (data_fresh data ++ Frest)%list ->
+  (exists l, data_of s0 u = Some l /\ forallb (fun nm => in_list nm l) (List.map fst data) = true) ->
+  rs_ok s0 s u i olds ext (data_fresh data ++ Frest)%list ->
+  exists ext', snd (resolve_data repaired s u olds ext data) = Some ext' /\
+               rs_ok s0 (fst (resolve_data repaired s u olds ext data)) u i olds ext' Frest.
+Proof.
+  induction data as [|[name conf] data IH]; intros s ext Frest Hu ND Hnames OK; simpl in *.
+  - exists ext. split; [reflexivity|exact OK].
+  - destruct Hnames as (l & Hl & Hall). apply andb_true_iff in Hall as [Hname Hall].
+    unfold data_fresh in *. simpl in *. rewrite <- app_assoc in *.
+    pose proof (rs_data _ _ _ _ _ _ _ OK) as D. rewrite Hl in D. unfold data_of in D.
+    destruct (repo_by_uuid s u) as [r|]; [|discriminate]. simpl in D. injection D as D. rewrite D, Hname.
+    pose proof (rs_extend_step s0 u i olds conf s ext _ Hu ND OK) as OK1.
+    destruct (resolve_extend repaired s olds ext conf) as [s1 ext1]. simpl in OK1.
+    apply IH; eauto.
+    + intros Hin. apply Hu. apply elem_of_app. auto.
+    + apply NoDup_app in ND as (_ & _ & ND). exact ND.
+Qed.
+
+Lemma rs_commit_step i ext : forall l s,
+  RepoInv s -> NoDup (List.map (ext_pick ext) l) ->
+  (forall o, o ∈ l -> node_state s o i true) ->
+  (forall o e, o ∈ l -> extension_of ext o = Some e -> node_state s e i false) ->
+  exists s2, commit_extensions s l (List.map (ext_pick ext) l) = (s2, true) /\ RepoInv s2 /\
+             (forall n, n ∈ List.map (ext_pick ext) l -> node_state s2 n i true) /\
+             (forall p, node_state s p i true -> node_state s2 p i true) /\
+             st_u2v s2 = st_u2v s.
+Proof.
+  induction l as [|o l IH]; intros s I ND Ho He; simpl.
+  - exists s. split; [reflexivity|]. split; [exact I|]. split; [intros n Hn; inversion Hn|]. split; auto.
+  - simpl in ND. apply NoDup_cons in ND as [Nn ND].
+    assert (Ho' : forall o', o' ∈ l -> node_state s o' i true) by (intros; apply Ho, elem_of_cons; auto).
+    destruct (String.eqb_spec o (ext_pick ext o)) as [Eq|Ne].
+    + destruct (IH s I ND Ho') as (s2 & E & I2 & N2 & K2 & U2).
+      { intros o' e Ho'' Hx. apply (He o' e); auto. apply elem_of_cons. auto. }
+      exists s2. rewrite E. split; [reflexivity|]. split; [exact I2|]. split; [|split; auto].
+      intros n Hn. apply elem_of_cons in Hn as [->|Hn]; auto.
+      rewrite <- Eq. apply K2, Ho, elem_of_cons. auto.
+    + assert (Hpick : exists e, extension_of ext o = Some e /\ ext_pick ext o = e).
+      { unfold ext_pick in *. destruct (extension_of ext o) as [e|]; [eauto|congruence]. }
+      destruct Hpick as (e & Ex & Ep). rewrite Ep in *.
+      assert (NSe : node_state s e i false) by (apply (He o e); auto; apply elem_of_cons; auto).
+      destruct (commit_succeeds s e i I NSe) as [Ed NS1]. pose proof (inv_commit s e I) as I1.
+      pose proof (commit_u2v s e) as U1.
+      pose proof (fun p lk => commit_node_state s e p i lk I) as Keep.
+      destruct (do_commit s e) as [s1 out]. simpl in *. subst out.
+      destruct (IH s1 I1 ND) as (s2 & E & I2 & N2 & K2 & U2).
+      { intros o' Ho''. apply Keep; [apply Ho'; exact Ho''|right; reflexivity]. }
+      { intros o' e' Ho'' Hx. apply Keep; [apply (He o' e'); auto; apply elem_of_cons; auto|]. left.
+        intros ->. apply Nn. apply elem_of_list_In, in_map_iff. exists o'. split; [|apply elem_of_list_In; exact Ho''].
+        unfold ext_pick. rewrite Hx. reflexivity. }
+      exists s2. rewrite E. split; [reflexivity|]. split; [exact I2|]. split; [|split].
+      * intros n Hn. apply elem_of_cons in Hn as [->|Hn]; auto.
+      * intros p Hp. apply K2, Keep; auto.
+      * congruence.
+Qed.
+
+Lemma validate_complete s i r : forall l, st_repos s !! i = Some r ->
+  (forall n, n ∈ l -> node_state s n i true) ->
+  exists vs, validate_parents s r l = Some vs /\ Forall2 (fun n v => st_u2v s !! n = Some v) l vs.
+Proof.
+  induction l as [|n l IH]; intros Hr Hall; simpl.
+  - exists []. split; [reflexivity|constructor].
+  - destruct (Hall n) as (r' & v & nd & H1 & H2 & H3 & H4 & H5); [apply elem_of_cons; auto|].
+    rewrite Hr in H3. injection H3 as <-. rewrite H1, H4, H5.
+    destruct (IH Hr) as (vs & E & F); [intros; apply Hall, elem_of_cons; auto|].
+    rewrite E. simpl. exists (v :: vs). split; [reflexivity|]. constructor; auto.
+Qed.
+
+Lemma u2v_images_nodup s l vs : RepoInv s -> Forall2 (fun n v => st_u2v s !! n = Some v) l vs ->
+  NoDup l -> NoDup vs.
+Proof.
+  intros I F. induction F as [|n v l vs Hn F IH]; intros ND; [apply NoDup_nil_2|].
+  apply NoDup_cons in ND as [Nn ND]. apply NoDup_cons. split; auto.
+  intros Hin. apply Nn. destruct (Forall2_elem_r _ _ _ _ F Hin) as (n' & Hn' & E).
+  apply (inv_bij s I) in Hn, E. rewrite Hn in E. now injection E as ->.
+Qed.
+
+Lemma u2v_image_elem s l vs n v : Forall2 (fun n v => st_u2v s !! n = Some v) l vs ->
+  n ∈ l -> st_u2v s !! n = Some v -> v ∈ vs.
+Proof.
+  intros F. induction F as [|n' v' l vs Hn' F IH]; intros Hin Hn; [inversion Hin|].
+  apply elem_of_cons in Hin as [->|Hin].
+  - rewrite Hn in Hn'. injection Hn' as <-. apply elem_of_cons. auto.
+  - apply elem_of_cons. right. auto.
+Qed.
+
+Lemma u2v_preimages_nodup s l vs : Forall2 (fun n v => st_u2v s !! n = Some v) l vs -> NoDup vs -> NoDup l.
+Proof.
+  intros F. induction F as [|n v l vs Hn F IH]; intros ND; [apply NoDup_nil_2|].
+  apply NoDup_cons in ND as [Nv ND]. apply NoDup_cons. split; auto.
+  intros Hin. apply Nv. eapply u2v_image_elem; eauto.
+Qed.
+
+(* a merge of committed, pairwise distinct nodes of one repo succeeds *)
+Lemma merge_succeeds s i l f : RepoInv s -> (2 <= length l)%nat -> NoDup l ->
+  (forall n, n ∈ l -> node_state s n i true) -> is_done (snd (do_merge repaired s l f)) = true.
+Proof.
+  intros I Hlen ND Hall. unfold do_merge.
+  destruct l as [|p0 [|p1 rest]]; simpl in Hlen; try lia.
+  destruct (Hall p0) as (r & v & nd & H1 & H2 & H3 & H4 & H5); [apply elem_of_cons; auto|].
+  rewrite H2. simpl fx_merge_validate. cbv iota. rewrite H3.
+  destruct (validate_complete s i r (p0 :: p1 :: rest) H3 Hall) as (vs & E & F). rewrite E.
+  pose proof (u2v_images_nodup s _ _ I F ND) as NDv.
+  simpl fx_merge_distinct. rewrite andb_true_l. rewrite (bool_decide_eq_true_2 _ NDv). simpl.
+  unfold new_uuid. reflexivity.
+Qed.
